@@ -89,7 +89,7 @@ def run_group(prop, kcfg, tier, repo, verif, seed):
                        "-j", str(s.get("jobs", 8)), "--output-format", "terse", "--harness-timeout", "%ds" % tmo] + s.get("flags", [])
                 for h in hs:
                     cmd += ["--harness", h["name"]]
-                if s.get("exact", True):
+                if s.get("exact", False):
                     cmd += ["--exact"]
                 t0 = time.time()
                 try:
@@ -139,7 +139,7 @@ def run_group(prop, kcfg, tier, repo, verif, seed):
 def _playback(r, g, s, h, scratch):
     """re-run one failing harness alone with concrete playback to obtain the witness values"""
     cmd = ["cargo", "kani", "-p", g["crate"]] + g.get("cargo_flags", []) + ["-Z", "unstable-options", "-Z", "function-contracts", "-Z", "stubbing",
-           "-Z", "concrete-playback", "--concrete-playback=print", "--harness", h["name"], "--exact", "--harness-timeout", "%ds" % h.get("timeout", 300)] + s.get("flags", [])
+           "-Z", "concrete-playback", "--concrete-playback=print", "--harness", h["name"], "--harness-timeout", "%ds" % h.get("timeout", 300)] + s.get("flags", [])
     try:
         p = subprocess.run(cmd, cwd=scratch, env=_env(), capture_output=True, text=True, timeout=h.get("timeout", 300) * 2 + 300)
         out = p.stdout
